@@ -1,5 +1,6 @@
 (* Executable model of btc_hd_wallet/base_wallet.py (the parts the properties touch). *)
 From BHW Require Import Lib.Base Lib.Digits Lib.ListAux Model.Helper Model.Keys Model.Bip32M Model.WalletUtils Spec.Curve.
+From BHW Require Import Model.Bip39M.
 From BHWGen Require Import Consts.
 
 Section BaseWallet.
@@ -22,4 +23,20 @@ Definition from_extended_key (s : str) : res (node * bool) :=
   do nd <- parse_str alph sha256 (key_type =? KEY_PRV) s testnet;
   Ok (nd, testnet).
 Definition watch_only (master : node) : bool := negb (is_prv master).
+
+(* the constructors: (master node, testnet, mnemonic, password) *)
+Variable nfkd : str -> str.
+Variable utf8 : str -> bytes.
+Variable pbkdf2 : bytes -> bytes -> Z -> bytes.
+Definition seed_key : bytes := [66;105;116;99;111;105;110;32;115;101;101;100].     (* b"Bitcoin seed" *)
+
+Definition from_bip39_seed_bytes (seed : bytes) (testnet : bool) : res (node * bool * option str * option str) :=
+  do m <- master_key hmac512 seed seed_key testnet; Ok (m, testnet, None, None).
+Definition from_bip39_seed_hex (seed_hex : str) (testnet : bool) :=
+  do b <- fromhex seed_hex; from_bip39_seed_bytes b testnet.
+Definition from_mnemonic (mnemonic password : str) (testnet : bool) : res (node * bool * option str * option str) :=
+  do m <- master_key hmac512 (bip39_seed_from_mnemonic nfkd utf8 pbkdf2 mnemonic password) seed_key testnet;
+  Ok (m, testnet, Some mnemonic, Some password).
+Definition from_entropy_hex (entropy_hex password : str) (testnet : bool) :=
+  do mn <- mnemonic_from_entropy sha256 entropy_hex; from_mnemonic mn password testnet.
 End BaseWallet.
